@@ -25,17 +25,28 @@ const (
 	PTop                    // integers 2^63+n, currencies 2^127+n, negative times
 	PMax                    // integers 2^64-1, currencies 2^128-1, 0xFF bytes, two-element slices
 	PEmpty                  // zero scalars, EMPTY (non-nil) slices and byte strings, non-nil pointers to zero values
+	PLong1                  // profile "one" with every byte string 65537 bytes long
+	PLong2                  // ... 131072 bytes
+	PLong3                  // ... 150001 bytes
 )
 
-var profileNames = map[Profile]string{PZero: "zero", POne: "one", PTypical: "typical", PBig: "big(2^32,2^64)", PTop: "top(2^63,2^127)", PMax: "max", PEmpty: "empty(non-nil)"}
+var profileNames = map[Profile]string{PZero: "zero", POne: "one", PTypical: "typical", PBig: "big(2^32,2^64)", PTop: "top(2^63,2^127)", PMax: "max", PEmpty: "empty(non-nil)", PLong1: "long-bytes(65537)", PLong2: "long-bytes(131072)", PLong3: "long-bytes(150001)"}
+
+// LongByteProfiles: byte strings straddling the 64 KiB chunk size that streaming decoders read in (one byte more than
+// one chunk; exactly two chunks; two chunks and a partial one). All other leaves as in profile "one".
+var LongByteProfiles = map[Profile]int{PLong1: 65537, PLong2: 131072, PLong3: 150001}
+
+// IsLongBytes reports whether a base label belongs to one of the long-byte-string profiles.
+func IsLongBytes(label string) bool { return len(label) > 11 && label[:11] == "long-bytes(" }
 
 // AllProfiles lists the generic profiles.
-var AllProfiles = []Profile{PZero, POne, PTypical, PBig, PTop, PMax, PEmpty}
+var AllProfiles = []Profile{PZero, POne, PTypical, PBig, PTop, PMax, PEmpty, PLong1, PLong2, PLong3}
 
 var fixedZone = time.FixedZone("verif+0530", 5*3600+1800)
 
 type filler struct {
 	p          Profile
+	longBytes  int // >0: every byte string gets this length (profiles PLong*); everything else as profile "one"
 	n          uint64
 	unassigned bool // every StateElement gets UnassignedLeafIndex (multiproof forms)
 }
@@ -175,6 +186,9 @@ func (f *filler) structLen(depth int) int {
 }
 
 func (f *filler) byteSliceLen() int {
+	if f.longBytes > 0 {
+		return f.longBytes
+	}
 	switch f.p {
 	case PZero, PEmpty:
 		return 0
@@ -426,6 +440,9 @@ func (e *Entry) Generic(p Profile) any {
 func (e *Entry) generic(p Profile) any {
 	v := e.New()
 	f := &filler{p: p, unassigned: e.Multiproof}
+	if n, ok := LongByteProfiles[p]; ok {
+		f.p, f.longBytes = POne, n
+	}
 	rv := reflect.ValueOf(v).Elem()
 	if rv.Kind() == reflect.Struct && e.Only != nil {
 		for _, name := range e.Only {
